@@ -1,6 +1,11 @@
 package pathdb
 
-import "math"
+import (
+	"math"
+
+	"github.com/ethereum/go-ethereum/common"
+	"github.com/ethereum/go-ethereum/ethdb"
+)
 
 // Harnesses for C19 (history index: block level), package triedb/pathdb.
 
@@ -253,4 +258,88 @@ func zzH_C19_desc_codec() {
 	zzAssert(zzAll(c.max == d.max, c.entries == d.entries, c.id == d.id, zzBytesEq(c.extBitmap, d.extBitmap)), "descriptor copy")
 	zzReach("desc")
 	zzObserve("enc", enc)
+}
+
+// ---- pruning of whole index blocks below the tail ----
+
+// zzBatch records what a prune step deletes and writes.
+type zzBatch struct {
+	ethdb.Batch // unused methods are not called
+	dels [][]byte
+	puts [][2][]byte
+}
+
+func (b *zzBatch) Delete(key []byte) error {
+	b.dels = append(b.dels, append([]byte{}, key...))
+	return nil
+}
+func (b *zzBatch) Put(key, value []byte) error {
+	b.puts = append(b.puts, [2][]byte{append([]byte{}, key...), append([]byte{}, value...)})
+	return nil
+}
+
+// pruneEntry on the metadata of 1..3 well-formed blocks (ascending max, consecutive ids) and a
+// symbolic tail: exactly the leading blocks that lie entirely below the tail are deleted, the
+// metadata keeps exactly the rest (every id >= tail stays reachable), nothing else is touched.
+func zzH_C19_prune_entry() {
+	n := 1 + zzChoice(zzBound("BLOCKS"))
+	bsize := 0
+	if zzNondetBool() {
+		bsize = 2
+	}
+	first := zzNondetU32()
+	zzAssume(first < 1<<20)
+	var descs []*indexBlockDesc
+	var blob []byte
+	for i := 0; i < n; i++ {
+		d := newIndexBlockDesc(first+uint32(i), bsize)
+		d.max = zzNondetU64()
+		d.entries = zzNondetU16()
+		zzAssume(d.entries > 0)
+		if i > 0 {
+			zzAssume(descs[i-1].max < d.max) // blocks hold ascending id ranges
+		}
+		for k := range d.extBitmap {
+			d.extBitmap[k] = zzNondetU8()
+		}
+		descs = append(descs, d)
+		blob = append(blob, d.encode()...)
+	}
+	tail := zzNondetU64() // id of the first history that is still alive
+	ident := newAccountIdent(common.Hash{1})
+	batch := &zzBatch{}
+	count, err := (&indexPruner{}).pruneEntry(batch, ident, blob, bsize, tail)
+	zzAssert(err == nil, "well-formed metadata is pruned without error")
+	want := 0
+	for want < n && descs[want].max < tail {
+		want++
+	}
+	zzAssert(count == want, "exactly the leading blocks whose ids all lie below the tail are pruned")
+	ref := &zzBatch{}
+	for i := 0; i < want; i++ {
+		deleteStateIndexBlock(ident, ref, descs[i].id)
+	}
+	if want == n {
+		deleteStateIndex(ident, ref)
+	} else if want > 0 {
+		var rest []byte
+		for _, d := range descs[want:] {
+			rest = append(rest, d.encode()...)
+		}
+		writeStateIndex(ident, ref, rest)
+	}
+	zzAssert(len(batch.dels) == len(ref.dels) && len(batch.puts) == len(ref.puts), "nothing else is deleted or written")
+	for i := range ref.dels {
+		zzAssert(zzBytesEq(batch.dels[i], ref.dels[i]), "the pruned blocks (and the metadata, if nothing remains) are deleted")
+	}
+	for i := range ref.puts {
+		zzAssert(zzBytesEq(batch.puts[i][0], ref.puts[i][0]) && zzBytesEq(batch.puts[i][1], ref.puts[i][1]), "the metadata keeps exactly the remaining blocks")
+	}
+	if want > 0 && want < n {
+		zzReach("partly-pruned")
+	} else if want == n {
+		zzReach("all-pruned")
+	} else {
+		zzReach("nothing-pruned")
+	}
 }
